@@ -517,7 +517,10 @@ pub fn run(rc: &mut RunCtx) {
         rc.begin(&id);
         let mut res = CaseResult::new(id);
         let mut r = Rng::for_case(seed, 6, 1000 + i);
-        let nf = if rc.miri() { r.usize(1, 3) } else if i % 20 == 7 { r.usize(20, 60) } else { r.usize(1, 12) };
+        // mostly short streams; some with tens and some with hundreds of frames (everything
+        // readable at once must be handed on at once, however many frames that is)
+        let many = !rc.miri() && i % 40 == 13;
+        let nf = if rc.miri() { r.usize(1, 3) } else if many { r.usize(150, 1500) } else if i % 20 == 7 { r.usize(20, 60) } else { r.usize(1, 12) };
         let (frames, encs) = loop {
             let (f, e) = gen_stream(&mut r, nf);
             // the interpreter is ~4 orders of magnitude slower: short streams only
@@ -526,7 +529,7 @@ pub fn run(rc: &mut RunCtx) {
             }
         };
         let len: usize = encs.iter().map(|x| x.len()).sum();
-        let cuts: Vec<usize> = match r.below(5) {
+        let cuts: Vec<usize> = match if many { r.range(1, 4) } else { r.below(5) } {
             0 => (0..len).collect(), // 1-byte reads
             1 => vec![],
             2 => (0..len).step_by(4096).collect(),
@@ -679,8 +682,11 @@ fn e2e_burst(r: &mut Rng, res: &mut CaseResult) {
     use crate::reflex::{deliver_frames, even_partition, Msg, Reflex};
     use crate::session::{self, W};
     use amiquip::{ConsumerMessage, ConsumerOptions};
-    let nmsg = r.usize(5, 40);
-    let sizes: Vec<usize> = (0..nmsg).map(|_| *r.pick(&[0usize, 10, 1000, 4000, 4000, 30000])).collect();
+    // a few big messages, or (a quarter of the cases) very many small ones: hundreds to
+    // thousands of frames readable at once
+    let small = r.chance(1, 4);
+    let nmsg = if small { r.usize(100, 1500) } else { r.usize(5, 40) };
+    let sizes: Vec<usize> = (0..nmsg).map(|_| if small { *r.pick(&[0usize, 1, 10, 100]) } else { *r.pick(&[0usize, 10, 1000, 4000, 4000, 30000]) }).collect();
     let total: usize = sizes.iter().sum();
     let mut histories: Vec<Vec<(u64, usize, u64)>> = Vec::new();
     for seg in [Segmenter::Whole, Segmenter::Fixed(1 + r.usize(0, 6)), Segmenter::Fixed(4096), Segmenter::Random(Rng::new(r.next()), 70000)] {
